@@ -313,9 +313,12 @@ def check_C14(tier, seed):
 
 
 def check_C04(tier, seed):
+    # values of 16K..64K elements (fragmented length determinants, multi-chunk open types): the implementation's own
+    # encoding is the wire (module VB; the reference encoders are not evaluated on them)
+    res = codec_family("C04", tier, seed, "big", exact=False, san="asan", modules=(4,), finish_it=False)
     return codec_family("C04", tier, seed, "mutations", exact=False, san="asan", valcap=2 if tier == "quick" else 6,
-                        leafcap=3 if tier == "quick" else 0, dense=(tier != "quick"), level="exploration",
-                        rule="per (type, value, syntax in DER/OER/UPER/CXER): every truncation, byte substitutions {00,01,7f,80,81,ff,+1,-1,+80} at every position (first 6 / last 4 of long encodings), duplicated tail, dropped byte, appended ff*4; decode (rc in {OK,WMORE,FAIL}, consumed <= size), print, validate, re-encode, decode the re-encoding (must compare equal), free; ASan+UBSan build: any report is a Crash event that no spec action explains")
+                        leafcap=3 if tier == "quick" else 0, dense=(tier != "quick"), level="exploration", res=res,
+                        rule="module VB: OCTET STRING / SEQUENCE OF / extension addition values of 16383..65536 elements: build, encode (DER, UPER, OER), decode the produced octets, compare, free; then, per (type, value, syntax in DER/OER/UPER/CXER): every truncation, byte substitutions {00,01,7f,80,81,ff,+1,-1,+80} at every position (first 6 / last 4 of long encodings), duplicated tail, dropped byte, appended ff*4; decode (rc in {OK,WMORE,FAIL}, consumed <= size), print, validate, re-encode, decode the re-encoding (must compare equal), free; ASan+UBSan build: any report is a Crash event that no spec action explains")
 
 
 def check_C18(tier, seed):
